@@ -17,7 +17,7 @@ EXPLANATION = (
 ASSUMPTIONS = ["pika::memory::intrusive_ptr copy/move/assign only affect the token reference count (intrusive_ptr_add_ref/release)",
                "std::atomic operations are the only accesses to state_"]
 THOROUGH_CONFIGS = [["-UNDEBUG", "-DPIKA_DEBUG"]]
-FLOORS = {"C14.R12": 2, "C14.R11": 3, "C14.R10": 5, "C14.R9": 12, "C14.R1": 6, "C14.R2": 6, "C14.R3": 5, "C14.R4": 8, "C14.R5": 6, "C14.R6": 4, "C14.R7": 8, "C14.R8": 3}
+FLOORS = {"C14.R12": 3, "C14.R11": 3, "C14.R10": 5, "C14.R9": 12, "C14.R1": 6, "C14.R2": 6, "C14.R3": 5, "C14.R4": 8, "C14.R5": 6, "C14.R6": 4, "C14.R7": 8, "C14.R8": 3}
 
 SS = "pika::detail::stop_state"
 TRY_GUARDS = ("pika::detail::scoped_lock_if_not_stopped", "pika::detail::scoped_lock_and_request_stop")
@@ -401,6 +401,41 @@ def run(rep, tier):
         rep.bad("C14.R12", rc, loc_of(tests12[0][0].events[-1]) if tests12[0][0].events else rc.loc, "os-threads-indistinguishable", "remove_callback decides 'the callback runs on this thread' by "
                 "'%s' alone: get_self_id() is the invalid id on every thread that is not a pika thread, so for two plain OS threads the test is true - ~stop_callback returns while the "
                 "callback is still executing on the other thread (and sets *is_removed_ in that thread's frame)" % tests12[0][1][:100])
+    # ... and the test is the right function of its three comparisons (evaluated over all 8 valuations): same pika id, and - only when the caller
+    # is not a pika thread - the same OS thread.  The OS thread alone does not identify a pika task (another task can run on the worker the
+    # stopper entered request_stop on while the callback is suspended)
+    from engine.kinds import eval_tree as _ev12, Unknown as _Un12
+    from engine.core import subexprs as _sx12
+    for blk12, _txt in tests12[:1]:
+        tree12 = _xl12(rc, blk12.cond)
+        cmps = {}
+        for x in _sx12(tree12, lambda y: isinstance(y, dict) and ((y.get("k") == "call" and y.get("op") in ("==", "!=")) or (y.get("k") == "bin" and y.get("op") in ("==", "!=")))):
+            tx = T(x)
+            role = "A" if "signalling_thread_" in tx else ("C" if ("signalling_os_thread_" in tx or "get_id()" in tx) else ("B" if "invalid_thread_id" in tx else None))
+            if role:
+                cmps[role] = (tx, (x.get("op") == "!="))
+        if set(cmps) != {"A", "B", "C"}:
+            raise AnalysisBroken("remove_callback: the three comparisons of the signalling-thread test were not recognised (%s)" % sorted(cmps))
+        wrong = []
+        for A in (False, True):
+            for B in (False, True):
+                for C in (False, True):
+                    # A: same pika id; B: the caller is a pika thread; C: same OS thread.  The texts may be written with == or !=
+                    env = {cmps["A"][0]: (A != cmps["A"][1]), cmps["B"][0]: (B if cmps["B"][1] else not B), cmps["C"][0]: (C != cmps["C"][1])}
+                    try:
+                        got = bool(_ev12(tree12, env))
+                    except _Un12 as ex:
+                        raise AnalysisBroken("remove_callback: the signalling-thread test is not evaluable (%s)" % ex)
+                    a, pos = cond_atoms(blk12.cond)
+                    want = A and (B or C)
+                    if got != want:
+                        wrong.append("same pika id=%d, caller is a pika thread=%d, same OS thread=%d -> %d (expected %d)" % (A, B, C, got, want))
+        if wrong:
+            rep.bad("C14.R12", rc, loc_of(blk12.events[-1]) if blk12.events else rc.loc, "signalling-thread-test", "remove_callback's 'the callback runs on this thread' test is not "
+                    "'same pika thread id, and for callers that are not pika threads the same OS thread': %s. A destroyer that merely runs on the OS worker the stopper used (while the "
+                    "callback is suspended) skips the wait and ~stop_callback returns while the callback is still executing" % "; ".join(wrong[:3]))
+        else:
+            rep.ok("C14.R12", rc, "the signalling-thread test equals 'same pika id && (pika thread || same OS thread)' on all 8 valuations")
     rq12 = get(SS + "::request_stop")
     if os_id(rq12) and any((e.get("k") == "write" and "get_id()" in T(e.get("rhs"))) or (e.get("k") == "call" and e.get("op") == "=" and "get_id()" in T(e) and P(e.get("recv") or {}).startswith("this->"))
                            for _, _, e in rq12.all_events()):
